@@ -4,7 +4,7 @@
 //! the real crate is (a) compared with the Lean models of the lowering and (b) *executed* by the Lean interpreter next to
 //! the monitored original (ORACLE lines written by the model driver); here the output is validated with wasmparser.
 use crate::ctx::Ctx;
-use crate::fam_lower::{instrument, max_flagged_per_block, Step, MODES, PATHS, PROBE_CALL};
+use crate::fam_lower::{branch_target, instrument, max_flagged_per_block, Step, MODES, PATHS, PROBE_CALL};
 use crate::optok::body_toks;
 use crate::rng::Rng;
 
@@ -408,6 +408,29 @@ fn gen_plan(r: &mut Rng, toks: &[String], next_probe: &mut i32) -> Vec<Step> {
                 }
             }
             _ => plan.push(Step::Func { exit: r.chance(3, 5), probes }),
+        }
+    }
+    // a block-level probe on a construct together with a semantic-after probe on a `br` / `br_if` that targets it: both wait for the
+    // same `end`, one unguarded, the other behind its flag
+    if r.chance(1, 6) {
+        let pairs: Vec<(usize, usize)> = (0..n)
+            .filter(|b| toks[*b].starts_with("br:") || toks[*b].starts_with("br_if"))
+            .filter_map(|b| branch_target(toks, b).map(|t| (b, t)))
+            .filter(|(_, t)| !toks[*t].starts_with("loop"))
+            .collect();
+        if !pairs.is_empty() {
+            let (b, t) = *r.pick(&pairs);
+            *next_probe += 1;
+            let s1 = Step::At { idx: t, mode: *r.pick(&[5usize, 5, 4]), probes: vec![*next_probe] };
+            *next_probe += 1;
+            let s2 = Step::At { idx: b, mode: 3, probes: vec![*next_probe] };
+            if r.chance(1, 2) {
+                plan.push(s1);
+                plan.push(s2);
+            } else {
+                plan.push(s2);
+                plan.push(s1);
+            }
         }
     }
     // function-exit probes together with a `before` probe on the final `end`: the exit code follows the wrapper's `end`, the
